@@ -380,21 +380,44 @@ func (f *Frame) applyContract(callee *ssa.Function, ct *FuncContract, args []Val
 	if ct.NoReturn {
 		return f.freshVal("noret", rt, h), "false"
 	}
+	// the callee may allocate: the counter moves before the havoc, so that havocked cells may
+	// hold references to the callee's allocations
+	newNow := vc.fresh(f.prefix+"now", "Int")
+	vc.assume(app(">=", newNow, h.now))
+	h.now = newNow
 	// modifies
 	if ct.ModAll {
 		f.frameCheckAll(reach, pos)
 		vc.havocAll(h)
 	}
+	if ct.ModInferred {
+		eff := f.en.effects(callee)
+		if eff.all {
+			f.frameCheckAll(reach, pos)
+			vc.havocAll(h)
+		}
+		for _, comp := range sortedKeys(eff.comps) {
+			if s := eff.comps[comp]; s == "MapDom" || s == "MapVal" {
+				vc.mapSort(comp, f.en.mapSortMemo[comp])
+			}
+			f.frameCheckComp(comp, reach, pos)
+			vc.havocComp(h, comp, eff.comps[comp])
+		}
+		for _, x := range sortedKeys(eff.unknownExt) {
+			vc.assumed = append(vc.assumed, "external function without contract assumed to write no modelled memory: "+x)
+		}
+	}
 	for _, m := range ct.Modifies {
 		ctx.havocLvalue(m, h, reach, pos, true)
 	}
-	newNow := vc.fresh(f.prefix+"now", "Int")
-	vc.assume(app(">=", newNow, h.now))
-	h.now = newNow
 	res := f.freshVal(f.prefix+"res "+callee.Name(), rt, h)
 	post := &SpecCtx{f: f, fn: callee, params: args, heap: h, old: entry, binds: ctx.binds, result: &res, pkg: ctx.pkg}
 	for _, en := range f.en.activeClauses(ct.Ensures, ct) {
 		vc.assume(implies(reach, post.evalBool(en.E)))
+	}
+	for _, en := range f.en.activeClauses(ct.Assumes, ct) {
+		vc.assume(implies(reach, post.evalBool(en.E)))
+		vc.assumed = append(vc.assumed, "assumed postcondition of "+ct.Key+" (not proved): "+en.Src)
 	}
 	return res, reach
 }
